@@ -113,18 +113,19 @@ def run_C11(tier, seed):
     insts = []
     for flexible in (False, True):
         insts += small_instances(2, 2, 2, (0, 1, 2), flexible, limit=12 if tier == "quick" else 60, rng=rng)
-    for _ in range(30 if tier == "quick" else 250):
-        insts.append(random_instance(rng, 3, 3, 3, durations=(0, 1, 2, 3, 5), flexible=rng.random() < 0.35))
-    for _ in range(10 if tier == "quick" else 60):   # regular instances (same number of operations per job)
+    for k in range(110 if tier == "quick" else 500):
+        insts.append(random_instance(rng, 3, 3, 3 + (k % 2), durations=(0, 1, 2, 3, 5) if k % 3 else (1, 2, 3, 5, 10),
+                                     flexible=rng.random() < 0.35))
+    for _ in range(20 if tier == "quick" else 100):   # regular instances (same number of operations per job)
         L = rng.randint(1, 3)
         nj = rng.randint(1, 3)
         insts.append([[((rng.randrange(3),), rng.choice((1, 2, 4))) for _ in range(L)] for _ in range(nj)])
-    res.bound = {"instances": "%d instances <=3 jobs x <=3 ops x <=3 machines (regular and ragged, recirculation, flexible, "
+    res.bound = {"instances": "%d instances <=3 jobs x <=3 ops x <=4 machines (regular and ragged, recirculation, flexible, "
                               "unused machine ids, zero durations without filter), seed %d" % (len(insts), seed),
                  "histories": "%d random maximal histories per (instance, filter), features compared after every dispatch"
-                              % (2 if tier == "quick" else 5),
+                              % (3 if tier == "quick" else 6),
                  "filters": "none; dominated_operations and non_idle_machines on instances with positive durations"}
-    walks = 2 if tier == "quick" else 5
+    walks = 3 if tier == "quick" else 6
     for jobs in insts:
         flexible = any(len(ms) > 1 for job in jobs for ms, _ in job)
         positive = all(d > 0 for job in jobs for _, d in job)
@@ -257,8 +258,8 @@ def run_C12(tier, seed):
         insts.append(random_instance(rng, 3, 3, 3, durations=(0, 1, 2, 4), flexible=rng.random() < 0.3))
     names = list(OBSERVERS) + ["History", "Unscheduled", "MakespanReward", "IdleTimeReward", "ResidualGraph"]
     res.bound = {"instances": "%d instances <=3x3x3 (seed %d)" % (len(insts), seed),
-                 "scenario": "observer set created in a random order; random partial history h1; reset; random history "
-                             "h2 -- compared step by step with fresh objects running h2 only (3 orders x 2 scenarios "
+                 "scenario": "observer set created in a random order; 1 to 3 rounds of (random partial history; reset); "
+                             "random history h2 -- compared step by step with fresh objects running h2 only (3 orders x 2 scenarios "
                              "per instance)"}
     for jobs in insts:
         flexible = any(len(ms) > 1 for job in jobs for ms, _ in job)
@@ -269,21 +270,27 @@ def run_C12(tier, seed):
             inst = build_instance(jobs)
             d1 = Dispatcher(inst)
             o1 = make_observers(d1, order, with_graph)
+            # a history may itself contain resets: 1 to 3 (partial episode; reset) rounds before the comparison
+            before = []
+            for _round in range(rng.choice((1, 1, 2, 3))):
+                m1 = Model(jobs)
+                steps = rng.randint(0, m1.N)
+                for _ in range(steps):
+                    mv = m1.legal()
+                    if not mv:
+                        break
+                    j, m = rng.choice(mv)
+                    d1.dispatch(inst.jobs[j][m1.k[j]], m)
+                    m1.apply(j, m)
+                d1.reset()
+                before.append(list(m1.history))
             m1 = Model(jobs)
-            steps = rng.randint(0, m1.N)
-            for _ in range(steps):
-                mv = m1.legal()
-                if not mv:
-                    break
-                j, m = rng.choice(mv)
-                d1.dispatch(inst.jobs[j][m1.k[j]], m)
-                m1.apply(j, m)
-            d1.reset()
+            m1.history = before   # (reported in breaches: the episodes before the last reset)
             inst2 = build_instance(jobs)
             d2 = Dispatcher(inst2)
             o2 = make_observers(d2, order, with_graph)
             model = Model(jobs)
-            res.case((str(jobs), tuple(order), tuple(m1.history)))
+            res.case((str(jobs), tuple(order), str(before)))
             ok = True
             while ok:
                 res.count("reset-indistinguishable-from-new")
